@@ -131,6 +131,34 @@ pub fn run_case(case: &Value, keys: &Keys) -> Value {
                 out["seal_error"] = json!(format!("{:?}", e));
             }
         }
+        // the same blocks on a symbol table the application supplies (two strings of the pool and one of its own):
+        // the meaning is the same, in memory and once sealed
+        let mut base = biscuit_auth::datalog::SymbolTable::new();
+        for s in pool.iter().take(2) {
+            base.insert(s);
+        }
+        base.insert("application-defined");
+        if let Ok(t4) = build_token_on(blocks, &pool, keys, Some(base)) {
+            let plain = |o: &Value| -> Value {
+                let mut k = json!({});
+                for f in ["r", "p", "pk", "failed", "kind", "queries", "query_rows", "iterations", "fact_count"] {
+                    if let Some(v) = o.get(f) {
+                        k[f] = v.clone();
+                    }
+                }
+                k
+            };
+            let o4 = authorize_once(&case, &pool, keys, &t4);
+            if plain(&o4) != plain(&out) {
+                out["base_table_differs"] = o4.clone();
+            }
+            if let Ok(t5) = t4.seal() {
+                let o5 = authorize_once(&case, &pool, keys, &t5);
+                if plain(&o5) != plain(&o4) {
+                    out["base_table_sealed_differs"] = o5;
+                }
+            }
+        }
         out
     }));
     match r {
